@@ -181,16 +181,19 @@ Definition dl_check (c : dl_case) : bool * bool := (dl_ok c, dl_ok c).
 (** ---- C07, deadlock part on the running code: the sender held inside a Send while lookups of missing names pile
     requests up, optionally across a stream failure; then the Send is let go ---- *)
 Record stall_case := {
-  sl_pending : N; sl_recv_err : bool;
+  sl_pending : N; sl_recv_err : bool; sl_resub_fail : bool;
   sl_queue_max : N; sl_stuck : N; sl_hot_after_ok : bool; sl_streams : N; sl_resub : bool; sl_failed : N }.
 Definition queue_cap : N := 1024.
 (** the code's request queue has [queue_cap] slots; a stream failure opens exactly one new stream *)
 Definition stall_agree (c : stall_case) : bool :=
-  N.eqb (sl_queue_max c) (N.min (sl_pending c) queue_cap) && N.eqb (sl_streams c) (if sl_recv_err c then 2 else 1).
+  if sl_resub_fail c
+  then (* the stream fails, the re-subscription on the second one fails with it, the third one works *)
+       N.eqb (sl_streams c) 3
+  else N.eqb (sl_queue_max c) (N.min (sl_pending c) queue_cap) && N.eqb (sl_streams c) (if sl_recv_err c then 2 else 1).
 (** no deadlock: once the Send returns every lookup returns, the cached name is served, and the subscriptions were
     re-requested on the new stream *)
 Definition stall_spec (c : stall_case) : bool :=
-  N.eqb (sl_stuck c) 0 && sl_hot_after_ok c && N.eqb (sl_failed c) 0 && (if sl_recv_err c then sl_resub c else true).
+  N.eqb (sl_stuck c) 0 && sl_hot_after_ok c && N.eqb (sl_failed c) 0 && (if sl_recv_err c || sl_resub_fail c then sl_resub c else true).
 Definition stall_check (c : stall_case) : bool * bool := (stall_agree c, stall_spec c).
 
 (** ---- C07, random concurrent mix on the running code (with the race detector in the thorough tier) ---- *)
